@@ -238,7 +238,7 @@ def record(plan, tier, seed, bins, wd, scale, tag):
 def validate_all(slices, wd, plan):
     results = []
     with cf.ThreadPoolExecutor(JOBS) as ex:
-        futs = {ex.submit(validate_trace, f, wd, plan.get("trace_timeout", 1500), dict(plan.get("trace_env") or {}, **(j.get("env") or {}))): (f, j) for (f, j) in slices}
+        futs = {ex.submit(validate_trace, f, wd, plan.get("trace_timeout", 3000), dict(plan.get("trace_env") or {}, **(j.get("env") or {}))): (f, j) for (f, j) in slices}
         for fu in cf.as_completed(futs):
             f, j = futs[fu]
             results.append((f, j, fu.result()))
@@ -486,6 +486,17 @@ def run(prop, plan, tier, seed, replay, wd, known, t0):
         print(ln)
     print("property=%s tier=%s events_checked=%d distinct=%d traces=%d models=%d wall=%.0fs" % (
         prop, tier, evaluations, len(distinct), len(results), len(mc_results), time.time() - t0))
+    # disk: the thorough tier records tens of gigabytes; traces without a deviation are not needed any more
+    # (replay files of deviations were copied to work/replays above).  VERIF_KEEP_TRACES=1 keeps everything.
+    if tier == "thorough" and not os.environ.get("VERIF_KEEP_TRACES"):
+        bad = {d["trace"] for d in own + other}
+        for (f, j, res) in results:
+            if f not in bad:
+                for g in (f, f + ".out.json", f + ".tlc.log"):
+                    try:
+                        os.remove(g)
+                    except OSError:
+                        pass
     return 1 if viol_lines else 0
 
 
